@@ -27,7 +27,7 @@ CLAIMED['C09'] = dict(tech='guard-dominance + sibling deviance on divisions by b
     text='Static (part): every division by a background frequency is dominated by a zero test of the same value (deviance rule over 4 sites); the one- and two-step '
          'log-odds routes share the zero convention; min/max score sum a per-row min/max over all non-wildcard columns with the natural order; validation exits '
          'exist with the right polarity and dominate Ok construction, with the extent of each validation (every row, every cell, every frequency); counting increments (position, symbol); '
-         'Background::from_counts writes every symbol index; every conversion that takes a background carries that background in its result; to_freq is (count + pseudocount) / row total over every row and column; rescale is cell * old[j] / new[j] with the ratio of the cell\'s own column in every row. The floating-point arithmetic itself is not decided.',
+         'Background::from_counts writes every symbol index; every conversion that takes a background carries that background in its result; to_freq (and its TRANSFAC sibling) is (count + pseudocount) / row total over every row and column; rescale is cell * old[j] / new[j] with the ratio of the cell\'s own column in every row. The floating-point arithmetic itself is not decided.',
     ref='DESIGN.md §4 C09')
 
 CLAIMED['C02'] = dict(tech='guard dominance / check-before-use on the scanner loop, linear-form position formula, estimate-direction (UP/DOWN) classification of the 8-bit comparisons',
@@ -56,7 +56,7 @@ CLAIMED['C18'] = dict(tech='check-before-use dataflow on every __getitem__, sibl
 CLAIMED['C14'] = dict(tech='provenance matching of matrix-fill stores, constant-table extraction, who-may-call on stream primitives, must-pass-through state reset, relational summary of buffer compaction, field-plumbing by variable names',
     text='Static (part): at the 8+ matrix-filling sites the row index is the enumerate counter of the value vector and the column the as_index of the paired symbol; JASPAR row order [A,C,G,T]; duplicate-symbol '
          'rejection; only read_until/read_line reach the stream (so records are a function of the byte stream, whatever the chunking); state reset dominates every returned record; compaction keeps buffer[start..]; '
-         'Record/Motif fields and the TRANSFAC tag table are not crossed; one-line parsers cannot cross their line end, blank separator lines are recognised by content and blanks next to a delimiter token are optional. Acceptance of arbitrary well-formed text by the nom grammar is not decided.',
+         'Record/Motif fields and the TRANSFAC tag table are not crossed; one-line parsers cannot cross their line end, blank separator lines are recognised by content, blanks next to a delimiter token are optional and the description of a header is the rest of its line. Acceptance of arbitrary well-formed text by the nom grammar is not decided.',
     ref='DESIGN.md §4 C14')
 CLAIMED['C15'] = dict(tech='panic-site inventory over the call graph reachable from the 8 reader entry points with re-verified discharge rules; reachability of Incomplete-producing parsers; table agreement; loop-exit analysis',
     text='Static: every Assert terminator, panicking call (unwrap/expect/panic!/unreachable!/unimplemented!) and may-panic std call (slice/str indexing, split_at, copy_within) in the 119 workspace bodies '
